@@ -10,7 +10,8 @@ Driver of C19. Payload (space separated):
 * types (comma separated, `-` = none): `int int8 … uintptr f32 f64 bool str iface error io<n>
   emap o<n>`, `S<type>` for a slice, `N<n>(<type>)` for a defined type with that underlying type; with `V` the last parameter is the variadic slice.
 * body: `echo` (returns what it received), `echo+<value>|…` (… followed by these values), `vlen` (returns the fixed arguments and the number of
-  variadic ones), `k:<value>|<value>…` (returns these values; `k:` = none), `panic`, `opaque`
+  variadic ones), `k:<value>|<value>…` (returns these values; `k:` = none), `panic`, `pfirst`/`pstr`/`pnum`/`plen` (plugin functions: return the first argument — any, a string, a
+  number; panic otherwise — resp. the number of arguments), `opaque`
   (a function of the generated stdlib: assumed not to panic, values unknown), `notfunc`.
 * values: `z` nil, `b:0|1`, `n:<float64 bits|nan>`, `g:<bits>` float32 (as float64 bits),
   `i:<kind>:<decimal>`, `s:<hex>`, `l[…]`, `m{…}`, `N<n>(<value>)` (a value of a defined type), `f` (an ECAL function object), `e` (the
@@ -154,6 +155,11 @@ def mkBody (sig : Sig) (b : String) : Option (List Val → BodyOut) :=
     let n := sig.params.length - 1
     some fun l => .ret (l.take n ++ [.int .int ((l.length - n : Nat) : Int)])
   else if b = "panic" then some fun _ => .panic
+  -- plugin bodies: first argument (any / a string / a number), number of arguments
+  else if b = "pfirst" then some fun l => match l with | a :: _ => .ret [a, .nil] | [] => .panic
+  else if b = "pstr" then some fun l => match l with | .str c :: _ => .ret [.str c, .nil] | _ => .panic
+  else if b = "pnum" then some fun l => match l with | .f64 x :: _ => .ret [.f64 x, .nil] | _ => .panic
+  else if b = "plen" then some fun l => .ret [.f64 (Num.ofInt l.length), .nil]
   else if b = "opaque" then some fun _ => .ret []
   else if b.startsWith "echo+" then
     let r := String.ofList (b.toList.drop 5)
